@@ -589,12 +589,68 @@ func CheckDispatch(run *report.Run, p *load.Program, generic *load.Program, rule
 			}
 			res.Switches++
 			name := funcKey(fn)
+			// A branch of the switch may have been extracted into a helper on one
+			// side only: a routine without a sibling of its shape is replaced by
+			// the routines it calls itself (vector side: its callees in V;
+			// generic side: its module callees), at most twice.
+			vec := append([]*ssa.Function{}, g.vec...)
+			calleesOf := func(f *ssa.Function, vectorSide bool) []*ssa.Function {
+				var out []*ssa.Function
+				for _, b := range f.Blocks {
+					for _, in := range b.Instrs {
+						c := staticCallee(in)
+						if c == nil || c == f || c.Parent() != nil || !load.IsModule(pkgOf(c)) {
+							continue
+						}
+						if inV(c) == vectorSide {
+							out = append(out, c)
+						}
+					}
+				}
+				return out
+			}
+			hasShape := func(f *ssa.Function, among []*ssa.Function) bool {
+				for _, c := range among {
+					if siblingShape(f, c) || siblingShape(c, f) {
+						return true
+					}
+				}
+				return false
+			}
+			for round := 0; round < 2; round++ {
+				var nv, ng []*ssa.Function
+				changed := false
+				for _, v := range vec {
+					if _, absorbed := why[v]; !hasShape(v, gen) && absorbed {
+						if sub := calleesOf(v, true); len(sub) > 0 {
+							nv = append(nv, sub...)
+							changed = true
+							continue
+						}
+					}
+					nv = append(nv, v)
+				}
+				for _, c := range gen {
+					if !hasShape(c, nv) && !isPublicAPI(c) && len(c.Blocks) > 0 {
+						if sub := calleesOf(c, false); len(sub) > 0 && hasAnyShape(sub, nv) {
+							ng = append(ng, sub...)
+							changed = true
+							continue
+						}
+					}
+					ng = append(ng, c)
+				}
+				vec, gen = nv, ng
+				if !changed {
+					break
+				}
+			}
 			used := make([]bool, len(gen))
 			okAll := true
 			var pairs []Pair
-			for i, v := range g.vec {
+			for i, v := range vec {
 				k := -1
-				if len(gen) == len(g.vec) && siblingShape(v, gen[i]) {
+				if len(gen) == len(vec) && siblingShape(v, gen[i]) {
 					k = i
 				} else {
 					for j, c := range gen {
@@ -661,6 +717,17 @@ func siblingShape(v, g *ssa.Function) bool {
 		}
 	}
 	return true
+}
+
+func hasAnyShape(cands, among []*ssa.Function) bool {
+	for _, c := range cands {
+		for _, a := range among {
+			if siblingShape(a, c) {
+				return true
+			}
+		}
+	}
+	return false
 }
 
 func shapeType(a, b types.Type) bool {
